@@ -210,8 +210,9 @@ Proof.
         - destruct Hz as [-> Hk]. split; [reflexivity|exact Hk].
         - symmetry. exact Hz.
         - contradiction. }
-      destruct (finish_at_spec creds s t c r Hinv) as (F1 & F2 & F3).
-      destruct (chal_of r) as [ch|].
+      cbv zeta. set (r' := effective u r).
+      destruct (finish_at_spec creds s t c r' Hinv) as (F1 & F2 & F3).
+      destruct (chal_of r') as [ch|].
       * destruct second.
         -- simpl. split; [exact F1|]. split; [exact F2|]. split; [exact F3|exact Hq].
         -- simpl. split; [apply set_pc_inv; [exact Hinv|split; [exact Hgp|exact I]]|].
@@ -363,7 +364,7 @@ Proof.
   assert (T1 : Forall (xreq_ok creds u h) tq1).
   { eapply Forall_impl; [|exact A2]. intros q. apply tok_xreq. }
   destruct oaz as [z1|]; [|cbn [fst snd]; split; assumption].
-  destruct (next (skipn (length tq1) sc)) as [r sc2].
+  destruct (next (skipn (length tq1) sc)) as [r_ sc2]. cbv zeta. set (r := effective u r_).
   assert (Q1 : Forall (xreq_ok creds u h) (tq1 ++ [mkReq m u h z1])).
   { apply Forall_app. split; [exact T1|]. constructor; [apply own_xreq; apply A3; reflexivity|constructor]. }
   destruct (chal_of r) as [ch|]; [|cbn [fst snd]; split; assumption].
